@@ -37,6 +37,16 @@ CHECKS = {
                  "subset of eq, copy hooks return self, pickle layout agrees between writer and reader.",
         "note": NOTE,
     },
+    "C08": {
+        "technique": "forward abstract interpretation of the type of `other` over CFG paths and short-circuit expressions (guard analysis, "
+                     "interprocedural into helpers that receive it); def-use terms of the comparands of __lt__/__eq__; CFG must-raise and dominance",
+        "level": "For every __eq__/__ne__ of the nine value classes, on every path and for every possible class of `other` (including unrelated "
+                 "objects), each attribute read / method call / conversion on `other` happens only where the established type defines it - so == "
+                 "cannot raise; total_ordering classes must project `other` identically in __lt__ and __eq__ (Scalar and FractionScalar do not: "
+                 "recorded findings); __lt__ converts other into self's unit and compares in the right orientation; cross-quantity-type "
+                 "ordering must-raise TypeError on all four operators; hash reads a subset of eq.",
+        "note": NOTE,
+    },
     "C14": {
         "technique": "who-may-write enumeration of registry mutation sites via def-use terms; check-before-write and dominance on CFGs; "
                      "exhaustive table lint over the interpreted registration log",
